@@ -16,7 +16,8 @@ ObsOK(o) ==
   /\ o.wire = wire'
   /\ o.att = att'
   /\ \A s \in Streams : o.rep[s] = st'[s].rep
-  /\ \A i \in 1..Len(ConnOrder) : o.via[i] = via'[ConnOrder[i]].st
+  \* waiting for the SETCONF answer and waiting for the circuit look the same from outside: not yet connecting
+  /\ \A i \in 1..Len(ConnOrder) : o.via[i] = (IF via'[ConnOrder[i]].st \in {"waitconf", "waitbuilt"} THEN "wait" ELSE via'[ConnOrder[i]].st)
   /\ ~o.exc
 PropsOK == OneDecision' /\ NothingForExit' /\ ViaExact' /\ Answered' /\ ViaNeverRefused'
 Step(e) ==
